@@ -79,8 +79,12 @@ def compile_script(ops):
     return sops, ranges, idx
 
 
-def model_expr(ops, tz=False):
+def model_expr(ops, tz=False, adv=False):
+    """adv: the adversarial order after every SIGINT (clients react to the broadcast before the arm queues its 0,
+    drain arm before exit arm) — the schedule class of the known exit-channel deadlock"""
     sops, _, _ = compile_script(ops)
+    if adv:
+        sops = [x.replace("SEv Sigint", "SAdv Sigint") for x in sops]
     return "script_trace (init %s 2048) [%s]" % ("true" if tz else "false", "; ".join(sops))
 
 
@@ -415,6 +419,8 @@ def wire_scenario(ops, trace):
     steps.append({"op": "sleep", "ms": 30})
     for n in openc:
         steps.append({"op": "recv", "c": n, "until": "", "count": 0, "timeout_ms": 10, "label": "probe"})
+    # is the accept loop still serving?  (gone after an exit, silent when wedged)
+    steps.append({"op": "connect", "c": "#zz", "params": {"user": "admin", "database": "pgcat"}, "password": "adminpw", "timeout_ms": 400})
     steps.append({"op": "snapshot", "label": "end"})
     return {"backends": [{"name": "b0"}], "toml": make_toml(T), "real_signals": real, "workers": 2, "steps": steps}, nops
 
@@ -763,13 +769,14 @@ def run_binary_script(mockd, name, ops, trace):
         B.finish()
         return {"error": B.err}
     cl, per, events, optotal, marks = {}, {}, [], {}, {}
+    noexit_sig = None
     fatal_ok = True
     tagn = 0
     nops = 0
     exit_rc = None
 
     def note_frames(who, lab, frames, outcome):
-        nonlocal fatal_ok
+        nonlocal fatal_ok, noexit_sig
         events.append({"who": who, "ev": "recv", "label": lab, "frames": frames, "outcome": outcome})
         for f in frames:
             if f["t"] == "E" and f["fields"].get("M") == ADMIN_MSG:
@@ -882,6 +889,13 @@ def run_binary_script(mockd, name, ops, trace):
                 time.sleep(0.04)
                 gone = B.proc.poll() is not None
             optotal[k] = (None, gone, time.monotonic() * 1000)
+            if want_exit and not gone:
+                # the process should be gone: is the main loop still serving?  (a wedged loop accepts nobody)
+                try:
+                    a = PgClient(B.port); fr, o_ = a.login({"user": "admin", "database": "pgcat"}, "adminpw", 1.0); a.close()
+                    noexit_sig = "admin login answered" if fr else "admin login not answered"
+                except OSError as ex_:
+                    noexit_sig = "connect failed: %s" % ex_
             kicked = new_kicks(trace, k, idx)
             if gone:
                 exit_rc = B.proc.returncode
@@ -914,7 +928,7 @@ def run_binary_script(mockd, name, ops, trace):
             c.close()
         bev = B.finish()
     return {"per": per, "optotal": optotal, "marks": marks, "fatal_ok": fatal_ok, "nops": nops, "events": events + bev,
-            "exit_rc": exit_rc, "after": after, "alive_end": alive_end, "dir": B.dir}
+            "exit_rc": exit_rc, "after": after, "alive_end": alive_end, "dir": B.dir, "noexit_sig": noexit_sig}
 
 
 # ----------------------------------------------------------------------------- races: the signal against a client action
@@ -1057,8 +1071,8 @@ def wedge_attempt(mockd, i, flood_tasks=6, flood_ms=700):
 
 
 # ----------------------------------------------------------------------------- check
-def eval_scripts(named):
-    exprs = [model_expr(ops) for _, ops in named]
+def eval_scripts(named, adv=False):
+    exprs = [model_expr(ops, adv=adv) for _, ops in named]
     vals = vlib.coq_eval("c17coq", PREAMBLE, exprs, shard=60)
     return [parse_trace(v, ops) for v, (_, ops) in zip(vals, named)]
 
